@@ -368,7 +368,25 @@ pub fn gen_echo(src: &mut Src, env: &mut Env, max: usize) -> Pkt {
     let d = pick_dst(src, env, v6);
     let request = src.chance(3, 4);
     let ident = if src.bool() { env.icmp_ident } else { src.u16() };
-    let e = Icmp::echo(v6, request, ident, src.u16(), payload_bytes(src, max));
+    let seq = src.u16();
+    let mut data = payload_bytes(src, max);
+    // 1 in 8 (decided by the sequence number drawn anyway): a request whose reply is as large as the
+    // interface's fragmentation buffer, give or take a few octets - the boundary of "can this reply
+    // be sent at all" (reachable on 6LoWPAN only when that buffer is below the 2047-octet datagram limit)
+    if seq % 8 == 0 {
+        let limit = smoltcp::config::FRAGMENTATION_BUFFER_SIZE;
+        let ip_hdr = if v6 { 40 } else { 20 };
+        let lowpan = env.own.med == Med::Lowpan;
+        if !lowpan || limit + 8 <= 2047 - 40 {
+            // IP payload (ICMP header + data) = limit - 6 ..= limit + 1, and the same minus the IP header
+            let delta = ((seq >> 3) % 8) as usize;
+            let target = if (seq >> 6) & 1 == 0 { limit } else { limit.saturating_sub(ip_hdr) };
+            let n = (target + delta).saturating_sub(6 + 8);
+            let fill = data.first().copied().unwrap_or(0x33);
+            data = (0..n).map(|i| fill.wrapping_add((i as u8).wrapping_mul(7))).collect();
+        }
+    }
+    let e = Icmp::echo(v6, request, ident, seq, data);
     let body = if v6 { e.encode6(&s, &d) } else { e.encode4() };
     let mut pkt = IpPkt::build(s, d, if v6 { PROTO_ICMPV6 } else { PROTO_ICMP }, 64, body);
     if let IpPkt::V4(p) = &mut pkt {
